@@ -66,7 +66,7 @@ def key_fn(case: dict[str, Any], label: str, item: dict[str, Any], conc: dict[st
     # where the special word sits in its paragraph matters: the first word of a paragraph is never
     # escaped (it was at a line start in the source too), inner words can be pushed to a line start
     cls = DOCS.finding_class(case)
-    if cls == "first-word-alone":
+    if cls in ("first-word-alone", "sentence-initial-marker"):
         label = "shape"  # whichever block the lone word turns into
     return f"{cls}/{label}"
 
